@@ -401,9 +401,8 @@ class RegexCompiler:
         capture_groups = self._find_capture_groups(body)
 
         # Check if body might match zero-width (e.g., lookaheads)
-        # If so, we need to reset captures if the optional group matches zero-width
-        # because per ECMAScript spec, zero-width optional matches should have
-        # undefined captures (equivalent to skipping the group)
+        # Per ECMAScript an optional iteration that matches the empty string is
+        # discarded, which leaves the captures as they were before the iteration
         need_zero_width_reset = capture_groups and self._needs_advance_check(body)
 
         if greedy:
@@ -420,10 +419,9 @@ class RegexCompiler:
             self._compile_node(body)
 
             if need_zero_width_reset:
-                # Reset captures if position didn't advance
-                min_group = min(capture_groups)
-                max_group = max(capture_groups)
-                self._emit(Op.RESET_IF_NO_ADV, reg, min_group, max_group)
+                # An iteration that did not advance is rejected (ECMAScript
+                # RepeatMatcher): backtracking restores the captures from before it
+                self._emit(Op.CHECK_ADVANCE, reg)
 
             self._patch(split_idx, Op.SPLIT_FIRST, self._current_offset())
         else:
@@ -439,10 +437,9 @@ class RegexCompiler:
             self._compile_node(body)
 
             if need_zero_width_reset:
-                # Reset captures if position didn't advance
-                min_group = min(capture_groups)
-                max_group = max(capture_groups)
-                self._emit(Op.RESET_IF_NO_ADV, reg, min_group, max_group)
+                # An iteration that did not advance is rejected (ECMAScript
+                # RepeatMatcher): backtracking restores the captures from before it
+                self._emit(Op.CHECK_ADVANCE, reg)
 
             self._patch(split_idx, Op.SPLIT_NEXT, self._current_offset())
 
